@@ -362,7 +362,7 @@ func enumerate(n int, memo map[int][]*node) []*node {
 	return out
 }
 
-var namePool = []string{"a", "b", "c", "ab", "a.b", "B", "b c", "-x", "\xc3\xa9"}
+var namePool = []string{"a", "b", "c", "ab", "a.b", "B", "b c", "-x", "\xc3\xa9", ".h", "~", "a\n"}
 var contentPool = []string{"", "x", "y", "xy", "yx", "a", "\x02", "\x02a", "x\x02", "\x02\x02", "line\n", "\x00\x7f"}
 var targetPool = []string{"a", "b", "x", "a/b", "../a", "./b", "\x02"}
 
@@ -607,6 +607,14 @@ func main() {
 		} {
 			add(w[0], nil, "witness")
 			add(w[1], nil, "witness")
+		}
+
+		// --- 2b. every unusual name once, with two contents, a link and a nested file (hidden files, odd bytes)
+		for _, name := range namePool {
+			add(dir(name, file("x")), nil, "names")
+			add(dir(name, file("y")), nil, "names")
+			add(dir(name, link("a")), nil, "names")
+			add(dir(name, dir(name, file("y"))), nil, "names")
 		}
 
 		// --- 3. random larger trees, each with one-step mutants
